@@ -44,15 +44,17 @@ def _assignments(n_exp, n_stu):
             yield list(zip(es, ss))
 
 
-def h_slg(E, ordered, partial, n_exp, n_stu, interior, delim, perm_check):
+def h_slg(E, ordered, partial, n_exp, n_stu, interior, delim, perm_check, blank=False):
     from mitxgraders import SingleListGrader
     exps = ['e%d' % i for i in range(n_exp)]
     stus = ['s%d' % j for j in range(n_stu)]
+    if blank:
+        stus[-1] = ''       # a blank item (missing_error off) is an item like any other: the subgrader decides what it is worth
     T = _table(E, exps, stus, interior)
     a = E.real('a', 0, 1)
     TG = make_table_grader(T)
     g = SingleListGrader(answers={'expect': list(exps), 'grade_decimal': a, 'msg': 'ANSMSG'}, subgrader=TG(), ordered=ordered,
-                         partial_credit=partial, delimiter=delim)
+                         partial_credit=partial, delimiter=delim, **(dict(missing_error=False) if blank else {}))
     sub = (delim + ' ').join(stus)
     r = g(None, ' ' + sub)
     s_ok, c_ok = wellformed(r)
@@ -192,6 +194,9 @@ def harnesses(tier):
             add(h_slg, 'slg', dict(ordered=ordered, partial=partial, n_exp=2, n_stu=3, interior=True, delim=';', perm=False), 'credits in (0,1)')
         add(h_slg, 'slg', dict(ordered=ordered, partial=True, n_exp=3, n_stu=3, interior=True, delim=',', perm=False), 'credits in (0,1)')
     add(h_slg, 'slg', dict(ordered=True, partial=True, n_exp=3, n_stu=4, interior=False, delim=';', perm=False), 'credits in [0,1]')
+    for ordered in (True, False):
+        for partial in (True, False):
+            add(h_slg, 'slg', dict(ordered=ordered, partial=partial, n_exp=2, n_stu=2, interior=False, delim=',', perm=False, blank=True), 'last submitted item blank; credits in [0,1]')
     add(h_slg, 'slg', dict(ordered=True, partial=False, n_exp=2, n_stu=3, interior=False, delim=';', perm=False), 'credits in [0,1]')
     add(h_slg, 'slg', dict(ordered=False, partial=True, n_exp=3, n_stu=2, interior=True, delim='--', perm=False), 'credits in (0,1)')
     add(h_slg, 'slg', dict(ordered=False, partial=True, n_exp=2, n_stu=2, interior=False, delim='--', perm=True), 'credits in [0,1], permuted resubmission')
